@@ -1,10 +1,56 @@
 import QuiverModel.Core.RefSem.Parse
+import QuiverModel.Core.RefSem.Compile0
 /-
 qm_c02 — driver for M-RefSem. Requests:
   (eval <program> <fuel>)  →  ok <canonical value> | err <Class> | fuel-out | unspecified <why> | unsupported
-The evaluation is `QM.RefSem.evalProgram`, the definition `Theorems/C02.lean` is about.
+  (compile0 <chain>)       →  ok <instruction>*          (fragment compiler model, Core/RefSem/Compile0)
+      chain ::= (ch term*)    term ::= (i z cidx) | (~) | (t id chain*)
+      instructions print as pop, const<i>, pick<k>, tuple<id>, rot<n>
+The evaluation is `QM.RefSem.evalProgram`, the compilation `QM.RefSem.C0.compileCh` — the definitions
+`Theorems/C02.lean` / `Theorems/C02Compile.lean` are about.
 -/
 open QM QM.RefSem
+
+namespace C0Glue
+open QM.RefSem.C0
+
+mutual
+  partial def parseT : Sx → Option T0
+    | .list [.atom "i", z, c] =>
+      match z.asInt, c.asNat with
+      | some z, some c => some (.int z c)
+      | _, _ => none
+    | .list [.atom "~"] => some .ripple
+    | .list (.atom "t" :: id :: fs) =>
+      match id.asNat, parseFs fs with
+      | some id, some fs => some (.tup id fs)
+      | _, _ => none
+    | _ => none
+  partial def parseCh : Sx → Option Ch0
+    | .list (.atom "ch" :: ts) => parseTs ts
+    | _ => none
+  partial def parseTs : List Sx → Option Ch0
+    | [] => some .nil
+    | t :: r =>
+      match parseT t, parseTs r with
+      | some t, some r => some (.cons t r)
+      | _, _ => none
+  partial def parseFs : List Sx → Option Fs0
+    | [] => some .nil
+    | c :: r =>
+      match parseCh c, parseFs r with
+      | some c, some r => some (.cons c r)
+      | _, _ => none
+end
+
+def showInstr : QM.VM.Instr → String
+  | .pop => "pop"
+  | .constant i => s!"const{i}"
+  | .pick k => s!"pick{k}"
+  | .tuple id => s!"tuple{id}"
+  | .rotate n => s!"rot{n}"
+  | _ => "?"
+end C0Glue
 
 def c02Step (_ : Unit) (req : List Sx) : Unit × String :=
   match req with
@@ -15,6 +61,10 @@ def c02Step (_ : Unit) (req : List Sx) : Unit × String :=
       else ((), "unsupported tail-call-outside-tail-position")
     | none, _ => ((), "unsupported unparsable-program")
     | _, none => ((), "bad-request")
+  | [.list [.atom "compile0", ch]] =>
+    match C0Glue.parseCh ch with
+    | some c => ((), "ok " ++ " ".intercalate ((QM.RefSem.C0.compileCh c).map C0Glue.showInstr))
+    | none => ((), "bad-request")
   | _ => ((), "bad-request")
 
 def main : IO Unit := sxLoop c02Step ()
